@@ -510,6 +510,10 @@ impl OutputFormat for IcyDraw {
                                     let mut layer = Layer::new(title, (0, 0));
 
                                     o += size;
+                                    // role, unused, mode, colour, flags, transparency, offset, size, font page, data length
+                                    if bytes.len() < o + 41 {
+                                        return Err(LoadingError::FileTooShort.into());
+                                    }
                                     let role = bytes[o];
                                     o += 1;
                                     if role == 1 {
@@ -570,6 +574,9 @@ impl OutputFormat for IcyDraw {
                                     o += 8;
 
                                     if role == 1 {
+                                        if bytes.len() < o + 16 {
+                                            return Err(LoadingError::FileTooShort.into());
+                                        }
                                         let width: i32 = u32::from_le_bytes(bytes[o..(o + 4)].try_into().unwrap()) as i32;
                                         o += 4;
                                         let height: i32 = u32::from_le_bytes(bytes[o..(o + 4)].try_into().unwrap()) as i32;
